@@ -123,7 +123,8 @@ impl<'a> Gen<'a> {
                 let size = self.rng.range((full / 3).max(2), full.max(2));
                 let ret = self.defs[idx].ret.clone();
                 let body = match self.defs[idx].kind {
-                    Kind::Plain => if self.many_live_def == Some(idx) { self.gen_many_live(&cx, &ret, size) } else { self.term(&cx, &ret, size) },
+                    Kind::Plain => if self.many_live_def == Some(idx) { self.gen_many_live(&cx, &ret, size) }
+                                   else if idx == 0 && self.rng.chance(4, 5) { self.gen_main_body(&cx, size) } else { self.term(&cx, &ret, size) },
                     Kind::Rec => self.gen_rec_body(&cx, idx, &members, size),
                     Kind::Corec => self.gen_corec_body(&cx, idx, size),
                     Kind::Helper => unreachable!(),
@@ -135,6 +136,49 @@ impl<'a> Gen<'a> {
             let mult = members.iter().map(|i| { let d = &self.defs[*i]; if d.kind == Kind::Rec { geo_sum(d.max_sites, d.fuel_bound) } else { 1 } }).max().unwrap_or(1);
             for &idx in &members { self.defs[idx].total_cost = unit * mult; }
         }
+    }
+
+    /// main as a sequence of statements that call the definitions not called so far and print results
+    fn gen_main_body(&mut self, cx: &Cx, size: usize) -> Tm {
+        let mut stmts: Vec<(String, Ty, Tm)> = Vec::new();
+        let mut cur = cx.clone();
+        let mut cands: Vec<usize> = (1..self.defs.len()).filter(|i| !self.defs[*i].called && self.defs[*i].body.is_some() && self.defs[*i].kind != Kind::Helper).collect();
+        for i in (1..cands.len()).rev() { let j = self.rng.below(i + 1); cands.swap(i, j); }
+        for i in cands {
+            if self.defs[i].called || self.st.cost + self.defs[i].total_cost > self.st.budget { continue; }
+            if !self.defs[i].params.iter().all(|p| !p.cns || !visible(&cur, Some(&p.ty), true).is_empty()) {
+                // a definition with covariable parameters: call it under a label of its result type when that fits
+                let d = &self.defs[i];
+                if !d.params.iter().all(|p| !p.cns || p.ty == d.ret) { continue; }
+                let ret = d.ret.clone();
+                if self.cfg.effect_sequenced && self.is_codata(&ret) { continue; }
+                let a = self.binder(&cur, &ret, true, BK::Label, &[]);
+                let lcx = extend(&cur, &a, true, &ret);
+                let call = self.call_def(&lcx, i, 6);
+                self.feat("label"); self.feat("label_passed_to_call");
+                let r = self.binder(&cur, &ret, false, BK::Let, &[]);
+                cur = extend(&cur, &r, false, &ret);
+                stmts.push((r, ret, Tm::Label(a, bx(call))));
+                continue;
+            }
+            let ret = self.defs[i].ret.clone();
+            if self.cfg.effect_sequenced && self.is_codata(&ret) { continue; }
+            let call = self.call_def(&cur, i, 6);
+            let r = self.binder(&cur, &ret, false, BK::Let, &[]);
+            cur = extend(&cur, &r, false, &ret);
+            stmts.push((r, ret, call));
+        }
+        let mut t = self.term(&cur, &Ty::Int, size);
+        for (r, ty, call) in stmts.into_iter().rev() {
+            // print integer results that are still visible
+            if ty == Ty::Int && self.cfg.prints && lookup(&cur, &r).is_some_and(|b| !b.cns && b.ty == Ty::Int) && self.rng.chance(3, 4) {
+                self.feat("println_i64");
+                t = Tm::Print(true, bx(Tm::Var(r.clone())), bx(t));
+            }
+            self.feat(if ty == Ty::Int { "let_int" } else if self.is_codata(&ty) { "let_codata" } else { "let_data" });
+            t = Tm::Let(r, ty, bx(call), bx(t));
+        }
+        t
     }
 
     fn gen_rec_body(&mut self, cx: &Cx, idx: usize, members: &[usize], size: usize) -> Tm {
